@@ -87,6 +87,13 @@ Section Variant.
     else if (c <? 32) then Some (u00 c)
     else None.
 
+  (* case 0xE2 of appendHTMLString: s[j:] starts with U+2028 or U+2029 (j+2 < len, s[j+1] == 0x80, s[j+2]&^1 == 0xA8) *)
+  Definition sep3 (s : list N) : option N :=
+    match s with
+    | 226 :: 128 :: y :: _ => if N.land y 254 =? 168 then Some y else None
+    | _ => None
+    end.
+
   (* the slow loop from position j, as a function of the suffix s[j:];
      fuel = length of the suffix (each step consumes at least one byte) *)
   Fixpoint slow (fuel : nat) (s : list N) : list N :=
@@ -106,6 +113,12 @@ Section Variant.
                        | (RLineSep, _) => [92; 117; 50; 48; 50; 56] ++ slow f (skipn 3 s)
                        | (RParaSep, _) => [92; 117; 50; 48; 50; 57] ++ slow f (skipn 3 s)
                        | (RValid, size) => firstn (N.to_nat size) s ++ slow f (skipn (N.to_nat size) s)
+                       end
+                     else if html then
+                       (* the HTML variant without normalisation: only the two separators have a case *)
+                       match sep3 s with
+                       | Some y => [92; 117; 50; 48; 50; hexdig (N.land y 15)] ++ slow f (skipn 3 s)
+                       | None => c :: slow f r
                        end
                      else c :: slow f r
                  end
